@@ -596,6 +596,39 @@ func splitTypeDefs(model *openfgav1.AuthorizationModel) *openfgav1.Authorization
 	return nil
 }
 
+// stripR undoes the renaming of every type to R<name> in an outcome (node ids, placeholder and type keys, public types, roots).
+func stripR(o *wgOutcome) *wgOutcome {
+	cut := func(x any) any {
+		if s, ok := x.(string); ok && strings.HasPrefix(s, "R") {
+			return s[1:]
+		}
+		return x
+	}
+	for _, r := range o.NW {
+		r[0], r[2] = cut(r[0]), cut(r[2])
+	}
+	for _, r := range o.EW {
+		r[0], r[3] = cut(r[0]), cut(r[3])
+	}
+	for _, r := range o.NWC {
+		r[0], r[1] = cut(r[0]), cut(r[1])
+	}
+	for _, r := range o.EWC {
+		r[0], r[2] = cut(r[0]), cut(r[2])
+	}
+	for i, r := range o.Roots {
+		o.Roots[i] = strings.TrimPrefix(r, "R")
+	}
+	sortRows(o.NW)
+	sortRows(o.EW)
+	sortRows(o.NWC)
+	sortRows(o.EWC)
+	o.Events = nil
+	kb, _ := json.Marshal([]any{o.Result, o.NW, o.EW, o.NWC, o.EWC, o.WDup})
+	o.key = string(kb)
+	return o
+}
+
 func sameJSON(a, b any) bool {
 	x, _ := json.Marshal(a)
 	y, _ := json.Marshal(b)
@@ -704,6 +737,20 @@ func wgReplay(args []string) error {
 				}
 			}
 			record(run.outcome)
+		}
+		// the same model with every type called R<name> (names are the users': a type may well begin with the letters of the
+		// placeholder prefix "R#"): the outcome is the same up to the renaming
+		renamed := proto.Clone(model).(*openfgav1.AuthorizationModel)
+		for _, td := range renamed.GetTypeDefinitions() {
+			td.Type = "R" + td.Type
+			for _, md := range td.GetMetadata().GetRelations() {
+				for _, rr := range md.GetDirectlyRelatedUserTypes() {
+					rr.Type = "R" + rr.Type
+				}
+			}
+		}
+		for i := 0; i < 3; i++ {
+			record(stripR(buildWG(renamed, nil).outcome))
 		}
 		// the same type definitions listed in another order (reversed: nothing says they come sorted): the model handed over stays
 		// as it was - same content, same slice, same order - and the outcome is the model's
